@@ -34,6 +34,9 @@ fn axes() -> Vec<Vec<f64>> {
         vec![-4.0, -3.5, -3.0, 2.0], vec![-40.0, -39.0, 0.3], vec![1e-20, 2e-20, 3.5e-20, 3.6e-20], vec![6.0e-34, 6.5e-34, 6.6e-34],
     ];
     v.push((0..17).map(|i| (i * i) as f64 * 0.25).collect());
+    v.push((0..40).map(|i| 1.07f64.powi(i) - 3.0).collect());
+    v.push((0..100).map(|i| (i as f64) * 0.1 + if i % 7 == 0 { 0.03 } else { 0.0 }).collect());
+    v.push((0..33).map(|i| (i as f64).sqrt() * 3.0 - 2.0).collect());
     v.push((0..9).map(|i| i as f64).collect());
     v
 }
@@ -153,6 +156,26 @@ fn probe_inner(unit: &str) {
                     }
                 }
             }
+            // long vectors: strictly rising with exactly one defect (tie, swap, NaN) at every position
+            for len in [9usize, 16, 17, 33] {
+                let inc: Vec<f64> = (0..len).map(|i| i as f64 * 0.5 - 2.0).collect();
+                let show = |m: &Monotonic| match m { Monotonic::Rising { strict } => format!("Rising{{strict:{strict}}}"), Monotonic::Falling { strict } => format!("Falling{{strict:{strict}}}"), Monotonic::NotMonotonic => "NotMonotonic".to_string() };
+                let got = show(&Array1::from(inc.clone()).monotonic_prop());
+                if got != "Rising{strict:true}" { return out(true, unit, format!("vector={inc:?}"), "Rising{strict:true}".into(), got); }
+                for k in 0..len - 1 {
+                    let mut t = inc.clone(); t[k + 1] = t[k];
+                    let got = show(&Array1::from(t.clone()).monotonic_prop());
+                    if got != "Rising{strict:false}" { return out(true, unit, format!("rising vector of length {len} with a tie at {k}"), "Rising{strict:false}".into(), got); }
+                    let mut w = inc.clone(); w.swap(k, k + 1);
+                    let got = show(&Array1::from(w.clone()).monotonic_prop());
+                    if got != "NotMonotonic" { return out(true, unit, format!("rising vector of length {len} with a swap at {k}"), "NotMonotonic".into(), got); }
+                }
+                for k in 0..len {
+                    let mut t = inc.clone(); t[k] = f64::NAN;
+                    let got = show(&Array1::from(t.clone()).monotonic_prop());
+                    if got.starts_with("Rising") { return out(true, unit, format!("rising vector of length {len} with NaN at {k}"), "anything but Rising".into(), got); }
+                }
+            }
             out(false, unit, String::new(), String::new(), String::new())
         }
         "Interp1D::is_in_range" | "Linear::interp_into" | "calc_frac" | "Interp1D::index_point" => {
@@ -211,6 +234,21 @@ fn probe_inner(unit: &str) {
                         }
                     }
                 }
+            }
+            // large i32 values: slope 1 on an axis scaled by 2^20 (a product of differences would overflow i32)
+            {
+                let n = 64usize;
+                let ax: Vec<i32> = (0..n as i32).map(|i| i << 20).collect();
+                let d: Vec<i32> = ax.iter().map(|x| 3 * x + 7).collect();
+                let it = Interp1DBuilder::new(Array1::from(d)).x(Array1::from(ax.clone())).strategy(Linear::new()).build().unwrap();
+                for i in 0..n - 1 { for off in [0i32, 2, 1 << 10, (1 << 20) - 2] {
+                    let q = ax[i] + off;
+                    let want = 3 * q + 7;
+                    match catch_unwind(AssertUnwindSafe(|| it.interp_scalar(q))) {
+                        Ok(Ok(g)) if g == want => {}
+                        other => return out(true, unit, format!("i32 axis 0,2^20,..,63*2^20 data=3x+7 query={q}"), format!("{want}"), format!("{other:?}")),
+                    }
+                } }
             }
             // bilinear a + b*x + c*y + d*x*y on integer grids
             let (ax, ay) = (vec![0i64, 2, 6], vec![-3i64, 0, 4, 5]);
